@@ -738,7 +738,7 @@ impl<'a> Poly<'a> {
         // Compute: middle product(1 + x C, A + x^n B)
         // = (1 + x C, A + x^n B) [x^n .. x^(2n-1)]
         // = B + middle product(C, A..B)
-        if z[0] == zn.one() && (half_up - 1) & (half_up - 2) == 0 {
+        if z[0] == zn.one() && p.len() == 2 * half_up - 1 && (half_up - 1) & (half_up - 2) == 0 {
             debug_assert!(p.len() - 1 == 2 * (half_up - 1));
             Self::_middlemul_1x(zr, tmplo, &p[1..], &z[1..half_up], tmp_mul);
         } else {
@@ -777,7 +777,11 @@ impl<'a> Poly<'a> {
         // α in HQZ paper.
         Self::_inv_mod_xn(zr, alpha, &q[..half_up], tmphi);
         // β in HQZ paper.
-        if p[0] == zn.one() && alpha[0] == zn.one() && (half_up - 1) & (half_up - 2) == 0 {
+        if p[0] == zn.one()
+            && alpha[0] == zn.one()
+            && q.len() == 2 * half_up - 1
+            && (half_up - 1) & (half_up - 2) == 0
+        {
             // Common case: (1+α)(1+β)=1+α+β+αβ where len(α) = 2^k
             Self::_longmul(
                 zr,
@@ -798,7 +802,7 @@ impl<'a> Poly<'a> {
         // Hensel lift mod x^n
         // Get P1 / Q0^2 as a middle product
         // γ in HQZ paper.
-        if z[0] == zn.one() && (half_up - 1) & (half_up - 2) == 0 {
+        if z[0] == zn.one() && q.len() == 2 * half_up - 1 && (half_up - 1) & (half_up - 2) == 0 {
             Self::_middlemul_1x(zr, tmparg, &q[1..], &z[1..half_up], tmphi);
         } else {
             // Shift by one like inverse:
